@@ -288,6 +288,9 @@ type peerDev struct {
 	Select        string // "", "unoffered", "several", "zero"
 	Denied        bool   // complete sub-protocol, then post-auth ReturnCode DENIED
 	PostAuthClear bool   // send the post-auth ad in the clear
+	// the post-auth ad carries one attribute as in-band secret (marker item + secret
+	// item), as an HTCondor peer may do for a private attribute
+	PostAuthSecret bool
 	// client role
 	SkipBitmask                   bool
 	BitmaskOutside                bool
@@ -470,7 +473,19 @@ func scriptedServer(dev peerDev, out *peerOutcome) func(*netsim.End) error {
 		pa.setS("ReturnCode", rc).setS("Sid", out.Sid).setS("User", "someone@peer").setS("ValidCommands", "60010,5,6")
 		pa.setI("SessionDuration", 3600).setI("SessionLease", 1800)
 		out.PostAuthAd = pa
-		if err := p.sendMsg(pa.encode(p.encOn && !dev.PostAuthClear), dev.PostAuthClear); err != nil {
+		body := pa.encode(p.encOn && !dev.PostAuthClear)
+		if dev.PostAuthSecret {
+			enc := p.encOn && !dev.PostAuthClear
+			body = refcodec.EncInt(int64(len(pa.Order) + 1))
+			for _, k := range pa.Order {
+				body = append(body, refcodec.EncString(k+" = "+pa.Attrs[k], enc)...)
+			}
+			body = append(body, refcodec.EncString("ZKM", enc)...)
+			body = append(body, refcodec.EncString(`ClaimId = "<10.0.0.9:9618>#1#2#cookie"`, enc)...)
+			body = append(body, refcodec.EncString("", enc)...)
+			body = append(body, refcodec.EncString("", enc)...)
+		}
+		if err := p.sendMsg(body, dev.PostAuthClear); err != nil {
 			return err
 		}
 		// application phase: E is made to send a canary; record how it arrives
